@@ -61,6 +61,7 @@ def install(rec: Rec):
     import quansino.operations.displacement as od
     from quansino.operations.composite import CompositeOperation
 
+    record_asked_steps()
     classes = [od.Ball, od.Box, od.Sphere, od.Translation, od.Rotation, od.TranslationRotation, oc.IsotropicDeformation, oc.AnisotropicDeformation, oc.ShapeDeformation, CompositeOperation]
     for cls in classes:
         if "calculate" not in cls.__dict__:
@@ -88,13 +89,44 @@ def make_wrapper(rec, cls, orig):
     return calculate
 
 
+ASKED_STEP: dict = {}  # id(operation) -> (operation, step size its constructor was given)
+
+
+def record_asked_steps():
+    """The bounds are judged against the step size the operation was *constructed with* (recorded at the constructor),
+    not against what the object says about itself afterwards; nothing in this check re-assigns step_size later."""
+    import inspect
+
+    import quansino.operations.displacement as od
+
+    base = od.DisplacementOperation
+    orig = base.__dict__["__init__"]
+    sig = inspect.signature(orig)
+
+    def __init__(self, *a, **k):
+        orig(self, *a, **k)
+        try:
+            ASKED_STEP[id(self)] = (self, sig.bind(self, *a, **k).arguments.get("step_size", sig.parameters["step_size"].default))
+        except Exception:  # noqa: BLE001  (signature changed: fall back to the attribute)
+            pass
+
+    base.__init__ = __init__
+
+
+def step_of(op):
+    it = ASKED_STEP.get(id(op))
+    if it is not None and it[0] is op:
+        return it[1]
+    return op.step_size
+
+
 def wit_disp(op, ctx, out):
     return {"operation": type(op).__name__, "step_size": getattr(op, "step_size", None), "result": np.asarray(out), "group": list(map(int, np.atleast_1d(ctx._moving_indices)))[:8]}
 
 
 def post_ball(rec, op, ctx, out, pre):
     out = np.asarray(out)
-    s = op.step_size
+    s = step_of(op)
     if out.shape != (1, 3):
         rec.viol("C10/Ball/shape", f"Ball returned shape {out.shape}", wit_disp(op, ctx, out))
     elif not np.linalg.norm(out) <= abs(s) * (1 + 1e-12):
@@ -103,7 +135,7 @@ def post_ball(rec, op, ctx, out, pre):
 
 def post_sphere(rec, op, ctx, out, pre):
     out = np.asarray(out)
-    s = op.step_size
+    s = step_of(op)
     if out.shape != (1, 3):
         rec.viol("C10/Sphere/shape", f"Sphere returned shape {out.shape}", wit_disp(op, ctx, out))
     elif abs(np.linalg.norm(out) - abs(s)) > 1e-12 * abs(s):
@@ -112,7 +144,7 @@ def post_sphere(rec, op, ctx, out, pre):
 
 def post_box(rec, op, ctx, out, pre):
     out = np.asarray(out)
-    s = op.step_size
+    s = step_of(op)
     if out.shape != (1, 3):
         rec.viol("C10/Box/shape", f"Box returned shape {out.shape}", wit_disp(op, ctx, out))
     elif np.any(np.abs(out) > abs(s)):
